@@ -7,6 +7,7 @@ import EduceModel.Spec.Clone
 import EduceModel.Spec.Debug
 import EduceModel.Spec.Deref
 import EduceModel.Spec.Into
+import EduceModel.Spec.Default
 /-
   Line-protocol driver: one JSON array per line in, one JSON array per line out.
   The executable definitions it runs are exactly the ones the theorems are about
@@ -31,6 +32,7 @@ structure FieldJ where
   deref : DerefField
   derefMut : DerefField
   into : IntoField
+  dflt : DefField
   deriving Inhabited
 
 structure VariantJ where
@@ -40,6 +42,7 @@ structure VariantJ where
   disc : Option Int
   vname : NameCfg
   namedField : Option Bool
+  dflag : Bool
   deriving Inhabited
 
 structure DefJ where
@@ -50,6 +53,7 @@ structure DefJ where
   tname : NameCfg
   copy : Bool          -- Copy educed next to Clone
   isUnion : Bool
+  defCfg : DefCfg
   deriving Inhabited
 
 structure St where
@@ -61,6 +65,9 @@ structure St where
   cloneV : Std.HashMap (String × Nat) Nat := {}               -- (ty, a) ↦ id of a.clone()
   cloneF : Std.HashMap (String × Nat × Nat) Nat := {}         -- (ty, dst, src) ↦ id of dst after clone_from
   methV : Std.HashMap (String × Nat × Nat) Nat := {}          -- (kind, id, a) ↦ id of m(a)
+  exprV : Std.HashMap Nat String := {}                          -- expression id ↦ Debug of its value
+  dfltV : Std.HashMap String String := {}                       -- type ↦ Debug of Default::default()
+  texprV : Std.HashMap Nat (Val String) := {}                   -- type-level expression id ↦ value
   conv : Std.HashMap (Nat × Nat × Nat) Nat := {}               -- (from type id, target id, a) ↦ value
   dbgV : Std.HashMap (String × Nat) (String × String) := {}   -- (ty, a) ↦ ({:?}, {:#?}) of the leaf
   methD : Std.HashMap (Nat × Nat) (String × String) := {}     -- (id, a) ↦ output of the debug method
@@ -96,6 +103,7 @@ def parseField (j : Json) : FieldJ :=
   let dr := jfield j "deref"
   let dm := jfield j "derefmut"
   let io := jfield j "into"
+  let df := jfield j "default"
   { name := name, ty := jstr (jfield j "ty"),
     eq := { name := name, ignore := jbool (jfield e "ignore"),
             method := (jopt (jfield e "method")).map jnat },
@@ -109,7 +117,8 @@ def parseField (j : Json) : FieldJ :=
     deref := { name := name, flag := jbool (jfield dr "flag"), isRef := jbool (jfield dr "isRef") },
     derefMut := { name := name, flag := jbool (jfield dm "flag"), isRef := jbool (jfield dm "isRef") },
     into := { name := name, ty := jnat (jfield io "ty"),
-              markers := (jarr (jfield io "markers")).toList.map fun p => (jnat (jarr p)[0]!, (jopt (jarr p)[1]!).map jnat) } }
+              markers := (jarr (jfield io "markers")).toList.map fun p => (jnat (jarr p)[0]!, (jopt (jarr p)[1]!).map jnat) },
+    dflt := { name := name, expr := (jopt (jfield df "expr")).map jnat, flag := jbool (jfield df "flag") } }
 
 def parseDef (j : Json) : DefJ :=
   { isEnum := jstr (jfield j "kind") == "enum",
@@ -118,11 +127,13 @@ def parseDef (j : Json) : DefJ :=
     name := (jstr (jfield j "name")).toList,
     tname := parseNameCfg (jfield j "tname"),
     isUnion := jstr (jfield j "kind") == "union",
+    defCfg := { typeExpr := (jopt (jfield j "typeexpr")).map jnat, new := jbool (jfield j "new") },
     variants := (jarr (jfield j "variants")).map fun v =>
       { name := (jstr (jfield v "name")).toList, shape := parseShape (jstr (jfield v "shape")),
         disc := (jopt (jfield v "disc")).map jint,
         vname := parseNameCfg (jfield v "vname"),
         namedField := (jopt (jfield v "named_field")).map jbool,
+        dflag := jbool (jfield v "dflag"),
         fields := (jarr (jfield v "fields")).map parseField } }
 
 def DefJ.eqType (d : DefJ) : EqType :=
@@ -174,6 +185,13 @@ def DefJ.intoTyOf (d : DefJ) (p : Pos) : Nat :=
     | some f => f.into.ty
     | none => 0
   | none => 0
+
+def DefJ.defType (d : DefJ) : DefType :=
+  let mk (v : VariantJ) : DefVariant :=
+    { name := v.name, shape := v.shape, fields := v.fields.toList.map (·.dflt), flag := v.dflag }
+  if d.isUnion then .union ((d.variants[0]!).fields.toList.map (·.dflt))
+  else if d.isEnum then .enum (d.variants.toList.map mk)
+  else .struct (mk (d.variants[0]!))
 
 def DefJ.tyOf (d : DefJ) (p : Pos) : String :=
   match d.variants[p.variant]? with
@@ -393,6 +411,29 @@ def handle (st : St) (j : Json) : St × Option Json :=
         | some v => Json.num v
         | none => Json.str "refused"
       (st, some (Json.arr #["into", a[1]!, a[2]!, a[3]!, a[4]!, m, s]))
+  else if op == "uimg" then (st, none)
+  else if op == "exprv" then ({ st with exprV := st.exprV.insert (jnat a[1]!) (jstr a[2]!) }, none)
+  else if op == "dfltv" then ({ st with dfltV := st.dfltV.insert (jstr a[1]!) (jstr a[2]!) }, none)
+  else if op == "texprv" then
+    ({ st with texprV := st.texprV.insert (jnat a[1]!) ⟨jnat a[2]!, (jarr a[3]!).toList.map jstr⟩ }, none)
+  else if op == "default" || op == "new" then
+    -- ["default", def] → [variant (or union field index), [Debug of each field]]
+    match st.defs.get? (jnat a[1]!) with
+    | none => (st, some (Json.arr #["error", "unknown def"]))
+    | some d =>
+      let t := d.defType
+      let ops : DefOps String :=
+        { exprVal := fun e => (st.exprV.get? e).getD "?expr",
+          dflt := fun p => (st.dfltV.get? (d.tyOf p)).getD "?dflt",
+          typeExprVal := fun e => (st.texprV.get? e).getD ⟨0, ["?texpr"]⟩ }
+      let show_ (v : Val String) : Json := Json.arr #[Json.num v.variant, Json.arr (v.fields.toArray.map Json.str)]
+      let m : Json := match Gen.Default.body d.defCfg t with
+        | .error _ => Json.str "rejected"
+        | .ok bd => if op == "new" && !d.defCfg.new then Json.str "no new()" else show_ (Sem.evalDefault ops bd)
+      let s : Json := match Spec.default ops d.defCfg t with
+        | some v => show_ v
+        | none => Json.str "refused"
+      (st, some (Json.arr #[op, a[1]!, m, s]))
   else if op == "hash" then
     -- ["hash", def, va, [fa]] → fed data as a list of strings
     match st.defs.get? (jnat a[1]!) with
